@@ -951,7 +951,7 @@ def make_history(spec):
 CORPUS = ["subset_index", "unstable_sort", "nested_pad", "fill_unattached", "empty_self_nested", "empty_other_sharing",
           "text_narrow_then_wide", "text_wide_then_narrow", "text_99_100", "text_100_99", "text_u99_u100", "text_u100_u99",
           "text_merge_widths", "empty_self_toplevel", "first_collection_emptied", "first_collection_never_filled",
-          "nested_first_collection_emptied"]
+          "nested_first_collection_emptied", "time_only_in_other", "per_column_units"]
 
 
 def corpus_history(name):
@@ -995,6 +995,20 @@ def corpus_history(name):
         h.delete("grp.sub.h")
         h.subset_mask([True, True])
         h.extend(build_real(rk + [fd("grp.n3", "time_delta")], 4, 100))
+    elif name == "time_only_in_other":
+        # time / time_delta fields (and a position's time) that only the other dataset has: prepend_empty inserts at
+        # row 0; value, jd1 and jd2 of every row must stay together
+        h.start(rk + [fd("tx", "text")], 3)
+        osch = rk + [fd("time", "time"), fd("td", "time_delta"), fd("sat", "position", refs={"time": ("field", "time")})]
+        h.extend(build_real(osch, 2, 100))
+        h.merge([build_real(osch + [fd("grp.t", "time")], 2, 200)], "time")
+        h.subset_idx([1, 6, 3, 0])
+    elif name == "per_column_units":
+        # 2-d float with one unit per column; the other side differs in the first, the second, both columns
+        h.start(rk + [fd("fu", "float", two=True, w=2, unit=("meter", "second"))], 2)
+        h.extend(build_real(rk + [fd("fu", "float", two=True, w=2, unit=("meter", "minute"))], 2, 100))
+        h.extend(build_real(rk + [fd("fu", "float", two=True, w=2, unit=("kilometer", "second"))], 2, 200))
+        h.merge([build_real(rk + [fd("fu", "float", two=True, w=2, unit=("kilometer", "hour"))], 1, 300)], "rid")
     elif name == "empty_self_toplevel":
         # a dataset emptied by subset keeps its fields; fields only self has are padded when it is extended
         h.start(rk + [fd("tx", "text"), fd("f1", "float", unit=("meter",)), fd("sat", "position")], 3)
